@@ -20,6 +20,7 @@ signature and decided afterwards against known_findings.json
 (collect-then-decide, DESIGN.md section 3).
 """
 import argparse
+import gc
 import hashlib
 import importlib
 import json
@@ -107,6 +108,9 @@ class Acc:
                 self.notes.setdefault(k, v)
 
 
+CHUNK = 400
+
+
 def _import_prop(pid):
     pid = pid.upper()
     name = "props.c" + pid[1:].lower()
@@ -118,7 +122,19 @@ def _worker(args):
     try:
         prop = _import_prop(pid)
         acc = Acc(deadline)
-        getattr(prop, fn)(acc, **kwargs)
+        if isinstance(kwargs.get("n"), int) and "seed" in kwargs and kwargs["n"] > CHUNK:
+            # Hypothesis keeps a record of every example of a run (about 0.5 MB per
+            # example for module-sized draws): long runs are cut into independent
+            # runs of CHUNK examples, each with its own derived seed.
+            left, i = kwargs["n"], 0
+            while left > 0 and not acc.expired():
+                kw = dict(kwargs, n=min(CHUNK, left), seed=kwargs["seed"] + 100003 * i)
+                getattr(prop, fn)(acc, **kw)
+                left -= CHUNK
+                i += 1
+                gc.collect()
+        else:
+            getattr(prop, fn)(acc, **kwargs)
         acc.deadline = None
         return ("ok", acc)
     except BaseException as e:
